@@ -272,6 +272,13 @@ fn bank_outputs(g: &Generated) -> Vec<String> {
 }
 
 /// introduce one name fault; returns (fault class, name concerned)
+/// names of unusual shapes for wires that are not declared: one to three characters of one to three bytes each, an
+/// underscore in second place (the shape of a register signal), near-misses of existing names
+pub fn odd_name(rng: &mut Rng) -> String {
+    rng.pick(&["\u{e9}", "\u{e9}t", "\u{e9}tat", "\u{e9}_x", "x_\u{e9}", "\u{65e5}\u{672c}\u{8a9e}", "\u{65e5}_\u{672c}", "f_pc9", "F_zz", "ab", "a", "q_",
+        "stat", "PC", "Mem_addr", "reg_outputa", "stat_aok", "\u{df}", "\u{df}_", "_\u{e9}", "x\u{e9}", "\u{e9}\u{e9}\u{e9}"]).to_string()
+}
+
 pub fn inject_fault(rng: &mut Rng, g: &mut Generated) -> (&'static str, String) {
     let assigned = assigned_names(g);
     let wires: Vec<(String, u8)> = g.stmts.iter().filter_map(|s| if let Stmt::Wire(n, w) = s { Some((n.clone(), *w)) } else { None }).collect();
@@ -333,12 +340,12 @@ pub fn inject_fault(rng: &mut Rng, g: &mut Generated) -> (&'static str, String) 
             ("assigned-driven", n)
         }
         7 => {
-            let n = format!("undecl{}", rng.below(100));
+            let n = if rng.chance(1, 2) { format!("undecl{}", rng.below(100)) } else { odd_name(rng) };
             g.stmts.insert(at, Stmt::Raw(format!("wire zz9:8; zz9 = {} + 1;", n)));
             ("read-undeclared", n)
         }
         8 => {
-            let n = format!("ghost{}", rng.below(100));
+            let n = if rng.chance(1, 2) { format!("ghost{}", rng.below(100)) } else { odd_name(rng) };
             g.stmts.insert(at, Stmt::Assign(vec![n.clone()], one));
             ("assigned-undeclared", n)
         }
@@ -357,7 +364,10 @@ pub fn inject_fault(rng: &mut Rng, g: &mut Generated) -> (&'static str, String) 
             ("default-reads-wire", n)
         }
         11 => {
-            let bad = rng.pick(&["Xy", "abc", "x", "xy", "XY", "x1", "_X"]).to_string();
+            // ASCII and non-ASCII names: one character of two bytes, two characters of four bytes, letters without case,
+            // and (valid) pairs lower/upper outside ASCII
+            let bad = rng.pick(&["Xy", "abc", "x", "xy", "XY", "x1", "_X", "\u{e9}", "\u{e9}\u{e9}", "\u{c9}\u{c9}", "\u{65e5}\u{672c}",
+                "\u{df}x", "\u{e9}1", "\u{e9}E", "x\u{c9}", "\u{c9}", "\u{65e5}"]).to_string();
             g.stmts.insert(at, Stmt::Raw(format!("register {} {{ k:8 = 0; }}", bad)));
             ("bad-bank-name", bad)
         }
